@@ -130,7 +130,7 @@ def judge(cell, kind, mask, mod, yl, yh):
         ref_ok = True
     except Exception as e:
         ref, ref_ok = e, False
-    ok, y = util.call_lib(mod, (yl, yh_in))
+    ok, y = util.call_lib_eval(mod, (yl, yh_in)) if kind not in ('impulse', 'randn') else util.call_lib(mod, (yl, yh_in))   # one class in eval() mode
     out = []
     tol = tol_for(cell, yl, yh)
     if ref_ok and not ok:
@@ -185,6 +185,17 @@ def run_cell(cell, seed):
             if util.reload_in_place(mod2, build(cell2)):
                 for k, (yl, yh) in pyrs.items():
                     out.extend(judge(cell2, 'reload-' + k, None, mod2, yl, yh))
+    # history: the public `mode` attribute of an existing module is re-assigned (built in another mode, then
+    # switched to this cell's mode): the module must synthesise in the mode it now reports
+    if not cell.get('custom') and not cell.get('noimp') and rnd.random() < 0.25:
+        other_mode = rnd.choice([m for m in refs.MODES if m != cell['mode']])
+        ok3, mod3 = util.call_lib(build, dict(cell, mode=other_mode, spelling=None))
+        if ok3:
+            mod3.mode = c01.lib_mode(cell)
+            yl, yh = make_pyramid(cell, 'randn', seed + 61)
+            for r in judge(cell, 'randn', None, mod3, yl, yh):
+                r['case'] = dict(r['case'], history='mode attribute re-assigned from %r' % other_mode)
+                out.append(r)
     # None subsets
     J = cell['J']
     masks = set()
